@@ -94,9 +94,10 @@ def jobs(tier, seed, prop):
     R = X.Rules()
     t, info = conformal.emit(R)
     cf = ContractFile("contracts/conformal.c")
-    nd, np_, npts, newton = (2, 2, 1, 1) if tier == "quick" else (2, 3, 1, 2)
     out = []
     for w, fn in enumerate(("mapConformalCanonicalToTransformed", "mapConformalTransformedToCanonical", "mapConformalWeights")):
+        # the inverse map (Newton iteration) is the heavy one: larger tables exhaust the memory limit
+        nd, np_, npts, newton = (2, 2, 1, 1) if tier == "quick" else ((2, 2, 1, 2) if w == 1 else (3, 3, 2, 2))
         pre = '#include "tsg_shim.h"\nint tsg_exc;\n#define TSG_NDIM %d\n#define TSG_NP %d\n#define TSG_NPTS %d\n#define TSG_NEWTON %d\n#define TSG_WHICH %d\n' % (nd, np_, npts, newton, w)
         src = pre + '#line 1 "/verif/contracts/conformal.c"\n' + cf.text(("text",)) + t + cf.text(("harness",), ["h_conformal"])
         out.append(Job("conformal." + fn, src, "h_conformal", unwind=max(nd, npts, np_, newton, nd * npts) + 1, timeout=600 if tier == "quick" else 2400, backends=[["--refine-arithmetic"], ["--sat-solver", "cadical"]],
